@@ -214,12 +214,13 @@ def unit(item):
                     break
         Bm = len(mates)
         for k in (2, 3) if flags.get("base") else ():
-            for dt in ("multistart_greedy", "multistart_sampling"):
+            # with and without the entropy request: the decoding strategy stores per-action or full per-step log-probs
+            for dt, want_ent in (("multistart_greedy", False), ("multistart_sampling", False), ("multistart_greedy", True), ("multistart_sampling", True)):
                 td = env.reset(torch.cat(mates, 0))
                 try:
                     with torch.no_grad(), Seam(tile_rows=True).active():
                         E._set_bs(env, Bm * k)
-                        o = pol(td, env, phase=phase, decode_type=dt, num_starts=k, return_entropy=True)
+                        o = pol(td, env, phase=phase, decode_type=dt, num_starts=k, **(dict(return_entropy=True) if want_ent else {}))
                 except Exception as e:  # noqa: BLE001
                     p.note(f"{pkey} x {skey}: {dt} with num_starts={k} not runnable here ({type(e).__name__}: {str(e)[:80]}) - start-node rules are C12's business")
                     continue
